@@ -63,6 +63,10 @@ def p_static(chk):
                f"table={table} classes={sorted(classes)}")
     src = ast.unparse(oh)
     chk.static("myjson.object_hook.constructs_with_all_keys", "klass(**sanitized_dict)" in src and "sanitized_dict[str(k)] = value" in src, "klass(**sanitized_dict)")
+    lo = ast.unparse(source.module(MYJSON).find("loads"))
+    chk.static("myjson.loads_builds_fresh_objects_on_every_call",
+               lo.strip().endswith("return json.loads(data, object_hook=object_hook)") and not source.module(MYJSON).find("loads").decorator_list,
+               "loads(data) is json.loads(data, object_hook=object_hook), undecorated")
     # per-instance copies of the class-level defaults (no shared item lists)
     init = ast.unparse(mb.find("MetabookObject.__init__"))
     chk.static("metabook.defaults_are_deep_copied_per_instance", "self.__dict__.update(copy.deepcopy(type_names))" in init, "copy.deepcopy of class defaults")
@@ -130,6 +134,12 @@ def bounded(chk):
             break
         if c2.dumps() != s:
             fails.append({"detail": "dumps is not a fixed point", "witness": {"metabook": s}, "class": "fixpoint"})
+            break
+        c3 = myjson.loads(s)
+        c3.append_article("Mutated copy")
+        c3.wikis.append(M.WikiConf(baseurl="http://other/", ident="o"))
+        if myjson.loads(s).dumps() != s:
+            fails.append({"detail": "editing one loaded copy shows up in a later loads() of the same text (shared objects)", "witness": {"metabook": s}, "class": "aliasing-between-loads"})
             break
         if c.items and c2.items is c.__class__.items:
             fails.append({"detail": "items list shared with the class default", "witness": {"metabook": s}, "class": "aliasing"})
